@@ -122,7 +122,7 @@ class InverseLaplaceTransformer(UnilateralInverseTransformer):
         sexpr = Ratfun(expr, s)
 
         if kwargs.get('damped_sin', False):
-            if sexpr.degree == 2:
+            if sexpr.degree == 2 and sexpr.delay == 0:
                 return self.do_damped_sin(sexpr, s, t)
             # if False and sexpr.degree == 3 and Ratfun(expr * s).degree == 2:
             #    return self.do_damped_sin3(sexpr, s, t)
